@@ -73,8 +73,9 @@ pub fn to_spherical(cart: Cartesian) -> Spherical {
     let z = cart.z();
 
     let theta = Radians::new_unchecked(y.atan2(x));
-    let r = (x * x + y * y + z * z).sqrt();
-    let phi = Radians::new_unchecked((z / r).acos());
+    // atan2 rather than acos(z / r): acos is ill-conditioned near the poles, where an error of
+    // one ulp in z moved the result by up to 1e-8 rad
+    let phi = Radians::new_unchecked((x * x + y * y).sqrt().atan2(z));
 
     Spherical::new(theta, phi)
 }
